@@ -46,7 +46,7 @@ INVARIANT ApiRefines
 CHECK_DEADLOCK FALSE
 """
 
-BROKEN = ("strict", "nosizecheck", "nototal", "nocheckint", "lenmaskbit", "lenzero")
+BROKEN = ("strict", "nosizecheck", "nototal", "nocheckint", "lenmaskbit", "lenzero", "packed-wipes-checkfields")
 
 
 def cfg(td=(), tags=("s1",), en=(), k=(), fn=(), gv=(), prims=("int", "char"), feat=(), n=2, mut=1,
@@ -134,9 +134,10 @@ def texts(beh, sfx):
     decls, muts = ma.split_mutations(rb)
     cdef_decls, flex = ma.apply_mutations(decls, muts)
     hc, hcdef, plan = ma.helpers(decls, sfx)
-    cdef = ma.render_cdef_api(cdef_decls, flex) + hcdef
-    csrc = ma.render_csource(decls, prelude=False) + hc
-    return rb, decls, cdef, csrc, plan
+    chunks = ma.cdef_chunks(cdef_decls, flex) + [(hcdef, False)]
+    cpacked = {k for (w, k) in flex if w == "pkw"}
+    csrc = ma.render_csource(decls, prelude=False, cpacked=cpacked) + hc
+    return rb, decls, chunks, csrc, plan
 
 
 def int_range(p):
@@ -250,7 +251,9 @@ def build_pack(pack, workdir, tag):
         sfx = "__c%d" % idx
         parts.append((idx, beh, sfx) + texts(beh, sfx))
     ffi = cffi.FFI()
-    ffi.cdef("".join(p[5] for p in parts))
+    for p in parts:
+        for text, packed in p[5]:
+            ffi.cdef(text, packed=packed)
     name = "m_c12_%s" % tag
     ffi.set_source(name, ma.PRELUDE + "".join(p[6] for p in parts))
     ma.build_api(core, ffi, name, workdir)
@@ -261,7 +264,7 @@ def build_pack(pack, workdir, tag):
         rec = {"id": idx, "beh": beh, "err": ""}
         rec.update(observe_one(mod.ffi, mod.lib, decls, plan, sfx, idx, offset))
         offset += count_anon(decls)
-        rec["cdef"] = cdef.replace(sfx, "")
+        rec["cdef"] = "".join(("/* ffi.cdef(packed=True): */ " if pk else "") + t for t, pk in cdef).replace(sfx, "")
         rec["csource"] = csrc.replace(sfx, "")
         recs.append(rec)
     return recs
@@ -400,6 +403,15 @@ def random_case(rng):
     elif c == 3 and structs:
         s = rng.choice(structs)
         beh.append({"a": "AddDots", "what": "su", "item": [s["kind"], s["tag"]]})
+    elif c == 4 and structs:
+        def byval(rt):
+            return [tuple(rt[:2])] if rt[0] in ("struct", "union") else byval(rt[1]) if rt[0] == "arr" else []
+        held = {k for a in beh if "fs" in a for f in a["fs"] if f[1][0] != "anon" for k in byval(ma.resolve(f[1], td))}
+        cand = [s for s in structs if (s["kind"], s["tag"]) not in held
+                and not any(byval(ma.resolve(f[1], td)) for f in s["fs"])]
+        if cand:
+            s = rng.choice(cand)
+            beh.append({"a": "MutatePack", "kind": s["kind"], "tag": s["tag"], "where": rng.choice(["cdef", "c", "both"])})
     garr = [a for a in beh if a["a"] == "DeclGlobal" and a["t"][0] == "arr" and a["t"][2] >= 0]
     if garr and not any(a["a"] == "AddDots" for a in beh) and rng.random() < 0.6:
         # "extern T g[...];" - possibly next to the struct mutated above
@@ -455,7 +467,7 @@ def run(ctx):
     # the same share for every kind of mutation (field type / drop / swap, constant, enumerator, "...")
     groups = {}
     for b in mutated:
-        kind = tuple(sorted((a["a"], a.get("how", a.get("what", ""))) for a in b if a["a"] in ma.MUTATIONS))
+        kind = tuple(sorted((a["a"], a.get("how", a.get("what", a.get("where", "")))) for a in b if a["a"] in ma.MUTATIONS))
         groups.setdefault(kind, []).append(b)
     strat = []
     while len(strat) < n_mut and any(groups.values()):
@@ -474,7 +486,7 @@ def run(ctx):
     for b in sel:
         for a in b:
             kinds[a["a"]] = kinds.get(a["a"], 0) + 1
-    for need in ("MutateField", "MutateConst", "MutateEnumerator", "AddDots", "DeclStruct", "DeclFunc", "DeclGlobal"):
+    for need in ("MutateField", "MutateConst", "MutateEnumerator", "AddDots", "MutatePack", "DeclStruct", "DeclFunc", "DeclGlobal"):
         if not kinds.get(need):
             raise core.MachineryError("no behaviour with action %s was selected" % need)
     ctx.cov["actions_replayed"] = kinds
